@@ -109,6 +109,8 @@ pub enum Event {
     ClientWrite(u32, Op),
     ClientWritePair(u32, Op, Op),
     ClientRead(u32, String, RPolicy),
+    /// a write and a linearizable read queued before the same loop turn (one drain cycle)
+    ClientMixed(u32, Op, String),
     Crash(u32, CrashMode),
     Stop(u32),
     Restart(u32),
@@ -1103,6 +1105,10 @@ impl Cluster {
             Event::ClientWritePair(id, a, b) => {
                 self.client_write(*id, &[a.clone(), b.clone()]).await?;
             }
+            Event::ClientMixed(id, op, key) => {
+                self.queue_read(*id, key, RPolicy::Linearizable)?;
+                self.client_write(*id, std::slice::from_ref(op)).await?;
+            }
             Event::ClientRead(id, key, pol) => {
                 let n = self.node(*id).ok_or("node not up")?;
                 let (tx, rx) = MaybeCloneOneshot::new();
@@ -1341,6 +1347,36 @@ impl Cluster {
         drop(g);
         self.awaiting.retain(|a| a.link.to != id && a.link.from != id);
         // client requests of a dead node observe a closed channel
+    }
+
+    /// queue a read on the node's command channel without running its turn
+    fn queue_read(&mut self, id: u32, key: &str, pol: RPolicy) -> Res<()> {
+        let n = self.node(id).ok_or("node not up")?;
+        let (tx, rx) = MaybeCloneOneshot::new();
+        let req = ClientReadRequest {
+            client_id: 1,
+            keys: vec![Bytes::from(key.to_string())],
+            consistency_policy: to_policy(pol),
+        };
+        let role = n.role_kind();
+        let term = n.raft.current_term();
+        let sent = n.cmd_tx.try_send(ClientCmd::Read(req, tx)).is_ok();
+        let idx = self.clients.len();
+        self.clients.push(ClientReq {
+            id: idx,
+            node: id,
+            write: None,
+            read: Some((key.to_string(), pol)),
+            rx: if sent { Some(rx) } else { None },
+            outcome: if sent { ClientOutcome::Pending } else { ClientOutcome::Closed },
+            invoked_at_event: self.events_applied,
+            resolved_at_event: None,
+            invoked_ms: self.clock_ms,
+            resolved_ms: None,
+            role_at_invoke: role,
+            term_at_invoke: term,
+        });
+        Ok(())
     }
 
     async fn client_write(&mut self, id: u32, ops: &[Op]) -> Res<()> {
